@@ -36,7 +36,7 @@
 (*  context    <<"withctx",c,a>> <<"thenctx",a,b>> <<"ignctx",a,b>>        *)
 (*             <<"mapctx",f,a>> <<"withstate",a>>                          *)
 (*  nesting    <<"nested",a,b>>   (a.nested_in(b))  <<"tree">> leaf        *)
-(*  pratt      <<"pratt",atom,<<ops>>,tablekind>>                          *)
+(*  pratt      <<"pratt",atom,<<ops>>,tablekind>>, ops = <<fix,bp,opgrammar>>   *)
 (*  text       <<"text",name,arg,derived>>: a parser of chumsky::text; in  *)
 (*             the machine it runs `derived`, the grammar text.rs builds   *)
 (*             it from; <<"newline">> (a custom parser), <<"sleq",a,seq>>  *)
@@ -253,7 +253,8 @@ WF(g) ==
     [] o \in {"foldr", "foldrw"} -> WFIter(g[2]) /\ WF(g[3])
     [] o = "recover" -> WF(g[2]) /\ WFStrat(g[3])
     [] o \in {"withctx", "mapctx"} -> WF(g[3])
-    [] o = "pratt" -> WF(g[2]) /\ ~CanEmpty(g[2])
+    \* the atom and every operator parser consume input (else the Pratt loop would not advance)
+    [] o = "pratt" -> WF(g[2]) /\ ~CanEmpty(g[2]) /\ \A i \in DOMAIN g[3] : WF(g[3][i][3]) /\ ~CanEmpty(g[3][i][3])
 
 (* does the operator occur anywhere in g? *)
 RECURSIVE HasOp(_, _)
@@ -279,7 +280,7 @@ HasOp(g, ops) ==
        [] o = "nesteddelim" -> HasOp(g[5], ops)
        [] o \in {"skipuntil", "retry"} -> HasOp(g[2], ops) \/ HasOp(g[3], ops)
        [] o \in {"withctx", "mapctx"} -> HasOp(g[3], ops)
-       [] o = "pratt" -> HasOp(g[2], ops)
+       [] o = "pratt" -> HasOp(g[2], ops) \/ \E i \in DOMAIN g[3] : HasOp(g[3][i][3], ops)
 
 (* the memoized sub-grammars of g (C11: the identities the memo table should distinguish) *)
 RECURSIVE MemoSub(_)
@@ -297,7 +298,7 @@ MemoSub(g) ==
     [] o \in {"group", "grouparr", "choice", "choicev"} -> MemoSubSeq(g[2])
     [] o \in {"withctx", "mapctx"} -> MemoSub(g[3])
     [] o = "nesteddelim" -> MemoSub(g[5])
-    [] o = "pratt" -> MemoSub(g[2])
+    [] o = "pratt" -> MemoSub(g[2]) \cup UNION {MemoSub(g[3][i][3]) : i \in DOMAIN g[3]}
     [] OTHER -> MemoSub(g[2])
 
 RECURSIVE Size(_)
